@@ -47,6 +47,7 @@ class RandomTree:
         self.nkeys = nkeys
         self.p_mut = p_mut
         self.hdr = hdr
+        self.twins = True
         self.next_id = 1
         self.rev = {}       # (txhash, idx) -> abstract (txid, idx)
         self.ts = {0: world.by_abs[0].header.summary.timestamp}
@@ -165,6 +166,42 @@ class RandomTree:
                 return False
             cur = nxt[0]
 
+    def _apply_hmut(self, d, cb, hmut, h, parent, now):
+        """Apply a header-level alteration to descriptor d (in place); returns the validator's clock to use."""
+        rng, w, bid = self.rng, self.w, d["id"]
+        if hmut == "target_otherchain":
+            d["altstart"] = self._altstart
+        if hmut == "badpow":
+            d["powok"] = False
+        elif hmut == "ts_equal":
+            d["ts"] = self.ts[parent]
+        elif hmut == "ts_before":
+            d["ts"] = self.ts[parent] - 1
+        elif hmut == "height_plus":
+            d["height"] = h + 1
+            cb["ins"][0]["cbh"] = h + 1
+        elif hmut == "cb_height":
+            cb["ins"][0]["cbh"] = h + 1
+        elif hmut == "evidence":
+            d["evok"] = False
+        elif hmut == "merkle":
+            d["merkleok"] = False
+        elif hmut == "orphan":
+            d["parent"] = 7777
+        elif hmut == "no_reward":
+            d["txs"] = d["txs"][1:]
+        elif hmut == "two_rewards":
+            d["txs"] = [cb, dict(cb, id=bid * 10 + 9)] + d["txs"][1:]
+        elif hmut == "cb_blank":
+            cb["ins"][0]["kind"] = "blank"
+        elif hmut == "cb_realref":
+            cb["ins"][0]["ref"] = {"tx": 9999, "idx": 0}
+        elif hmut == "cb_bigdata":
+            cb["ins"][0]["small"] = False
+        elif hmut == "future":
+            now = d["ts"] - w.cfg.max_future - rng.choice([1, 1, 0])
+        return now
+
     def step(self, now_slack=0, force=None, parent=None):
         """force: None | "" (a valid block) | a mutation name (HDR_MUTS / TX_MUTS / "reward+1" ...)."""
         rng, w = self.rng, self.w
@@ -185,6 +222,7 @@ class RandomTree:
                 fees += t["_fee"]
         mut, hmut = "", ""
         reward_delta = 0
+        txs0 = list(txs)
         if force is not None:
             do_mut = force != ""
             kind = 0.0 if (force in TX_MUTS or force in ("hugeout", "mut_cross")) else (0.7 if force.startswith("reward") else 0.9)
@@ -240,37 +278,7 @@ class RandomTree:
              "sizeok": True, "mut": hmut, "txs": [cb] + [{k: v for k, v in t.items() if k not in ("_pick", "_fee")}
                                                           for t in txs]}
         now = ts + now_slack
-        if hmut == "target_otherchain":
-            d["altstart"] = self._altstart
-        if hmut == "badpow":
-            d["powok"] = False
-        elif hmut == "ts_equal":
-            d["ts"] = self.ts[parent]
-        elif hmut == "ts_before":
-            d["ts"] = self.ts[parent] - 1
-        elif hmut == "height_plus":
-            d["height"] = h + 1
-            cb["ins"][0]["cbh"] = h + 1
-        elif hmut == "cb_height":
-            cb["ins"][0]["cbh"] = h + 1
-        elif hmut == "evidence":
-            d["evok"] = False
-        elif hmut == "merkle":
-            d["merkleok"] = False
-        elif hmut == "orphan":
-            d["parent"] = 7777
-        elif hmut == "no_reward":
-            d["txs"] = d["txs"][1:]
-        elif hmut == "two_rewards":
-            d["txs"] = [cb, dict(cb, id=bid * 10 + 9)] + d["txs"][1:]
-        elif hmut == "cb_blank":
-            cb["ins"][0]["kind"] = "blank"
-        elif hmut == "cb_realref":
-            cb["ins"][0]["ref"] = {"tx": 9999, "idx": 0}
-        elif hmut == "cb_bigdata":
-            cb["ins"][0]["small"] = False
-        elif hmut == "future":
-            now = d["ts"] - w.cfg.max_future - rng.choice([1, 1, 0])
+        now = self._apply_hmut(d, cb, hmut, h, parent, now)
         owners = {pos: t.get("_owner", {}) for pos, t in enumerate(d["txs"])}
         try:
             blk = w.concretise(d, owners=owners)
@@ -285,7 +293,43 @@ class RandomTree:
             for td, t in zip(d["txs"], blk.transactions):
                 self._index_tx(td["id"], t)
             self.next_id += 1
+        # twins: whatever the node remembered while judging one candidate must not decide the fate of a look-alike.
+        #  (a) an altered candidate was refused -> its unaltered twin (same parent, same transactions) is offered next and must pass;
+        #  (b) an unaltered candidate was accepted -> a twin with one header-level alteration is offered next and must be refused.
+        if self.twins and force is None and hmut not in ("orphan", "target_otherchain") and rng.random() < 0.35:
+            strip = lambda t: {k: v for k, v in t.items() if k not in ("_pick", "_fee")}
+            if (hmut or mut) and res == "rej":
+                self._offer_twin(self.next_id, parent, h, ts, now_slack, sub + fees, [strip(t) for t in txs0], txs0, "", hmut or mut)
+            elif not (hmut or mut) and res == "ok":
+                hm = rng.choice(["evidence", "merkle", "ts_equal", "cb_height", "badpow", "badtarget"])
+                self._offer_twin(self.next_id, parent, h, ts, now_slack, sub + fees, [strip(t) for t in txs0], txs0, hm, "")
         return res, (hmut or mut)
+
+    def _offer_twin(self, bid, parent, h, ts, now_slack, reward, txs, txs_full, hmut, twin_of):
+        rng, w = self.rng, self.w
+        txs = json.loads(json.dumps(txs))
+        for pos, t in enumerate(txs):             # fresh abstract ids (content unchanged)
+            t["id"] = bid * 10 + pos + 1
+        cb = {"id": bid * 10, "ins": [{"ref": {"tx": -1, "idx": 0}, "kind": "cbdata", "signer": -1, "cbh": h, "small": True}],
+              "outs": [{"v": reward, "k": 1}] if reward > 0 else [], "sizeok": True, "mut": ""}
+        d = {"id": bid, "parent": parent, "height": h, "ts": ts, "powok": True, "evok": True, "merkleok": True, "sizeok": True,
+             "mut": hmut, "txs": [cb] + txs}
+        now = self._apply_hmut(d, cb, hmut, h, parent, ts + now_slack)
+        owners = {0: {}}
+        for pos, t in enumerate(txs_full):
+            owners[pos + 1] = t.get("_owner", {})
+        try:
+            blk = w.concretise(d, owners=owners)
+        except sk.Unrealisable:
+            return
+        res = self.rec.add(blk, now, validated=True, label={"act": "add", "mut": hmut, "parent": parent, "id": bid, "twin_of": twin_of or "valid"})
+        if res == "ok":
+            self.stored.append(bid)
+            self.ts[bid] = d["ts"]
+            self.height[bid] = d["height"]
+            for td, t in zip(d["txs"], blk.transactions):
+                self._index_tx(td["id"], t)
+            self.next_id += 1
 
 
     def adopt(self, blk):
